@@ -476,6 +476,11 @@ func upcastCheck(r *core.Run, prop string) {
 	if len(segs) > 0 {
 		r.Sample(map[string]any{"ops": segs[0].Meta})
 	}
+	segSelfTest(r, "upcast", "UpcastTrace", "", segs, []core.Corruption{
+		{"an accepted registration reported as rejected", core.ReplaceFirst(`"e":"reg"`, `"res":"ok"`, `"res":"err"`)},
+		{"an upcasting replay that did not terminate", core.ReplaceFirst(`"e":"apply"`, `"hung":false`, `"hung":true`)},
+		{"a rejected registration reported as accepted", core.ReplaceFirst(`"e":"reg"`, `"res":"err"`, `"res":"ok"`)},
+	})
 	validateUpcast(r, strings.ToLower(prop)+"-seq", segs)
 	// racing registrations
 	var race []core.Segment
